@@ -205,3 +205,100 @@ def first_difference(a, b, la, lb, rtol=1e-9):
 
 def fmt(e):
     return "[" + ", ".join(repr(x) if not isinstance(x, np.ndarray) else repr(x.tolist()) for x in e) + "]"
+
+
+# {{{ driving one step statement by statement (C02 schedule explorer, C08 access log)
+
+def array_fingerprints(ctx):
+    out = {}
+    for k, v in dict.items(ctx):
+        if isinstance(v, np.ndarray):
+            out[k] = (id(v), v.tobytes())
+    return out
+
+
+class StepDriver:
+    """Executes the statements of one phase in a caller-chosen order through
+    the real interpreter's own evaluate_condition / exec_* methods, with a
+    RecStore bracketing every statement."""
+
+    def __init__(self, dag, script, funcs, phase_name=None, state_override=None, persist_override=None):
+        from dagrt.exec_numpy import NumpyInterpreter
+        self.dag = dag
+        self.interp = NumpyInterpreter(dag, funcs)
+        self.store = RecStore()
+        self.interp.context = self.store
+        self.interp.eval_mapper.context = self.store
+        self.store.enabled = False
+        ctx = initial_context(script)
+        if state_override:
+            for k, v in state_override.items():
+                if k in ctx:
+                    ctx[k] = copyval(v)
+        self.interp.set_up(script["t0"], script["dt0"], ctx)
+        if persist_override:
+            for k in [k for k in dict.keys(self.store)]:
+                if k not in persist_override:
+                    dict.__delitem__(self.store, k)
+            for k, v in persist_override.items():
+                dict.__setitem__(self.store, k, copyval(v))
+        self.phase = dag.phases[phase_name or script["initial"]]
+        self.id_to_stmt = {s.id: s for s in self.phase.statements}
+
+    def run(self, order):
+        """Returns dict(outcome, events, store, per_stmt={id: (reads, writes)}, crash)."""
+        from dagrt.exec_numpy import FailStepException, TransitionEvent
+        st = self.store
+        events = []
+        per = {}
+        outcome = "completed"
+        crash = None
+        executed = []
+        try:
+            for sid in order:
+                stmt = self.id_to_stmt[sid]
+                before = array_fingerprints(st)
+                st.cur = sid
+                mark = len(st.log)
+                st.enabled = True
+                try:
+                    if self.interp.evaluate_condition(stmt):
+                        r = getattr(self.interp, stmt.exec_method)(stmt)
+                        executed.append(sid)
+                        if r is not None:
+                            ev, _new = r
+                            if ev is not None:
+                                events.append(encode_event(ev))
+                finally:
+                    st.enabled = False
+                    reads = {n for (_, k, n) in st.log[mark:] if k == "r"}
+                    writes = {n for (_, k, n) in st.log[mark:] if k in ("w", "d")}
+                    after = array_fingerprints(st)
+                    for k, (ident, data) in after.items():
+                        b = before.get(k)
+                        if b is not None and b[0] == ident and b[1] != data:
+                            writes.add(k)          # in-place element write
+                    per[sid] = (reads, writes)
+        except FailStepException:
+            outcome = "failed"
+        except TransitionEvent as t:
+            outcome = "switched:" + str(t.next_phase)
+        except Exception as ex:      # noqa: BLE001
+            if getattr(type(ex), "_vf_program_error", False):
+                outcome = "raised:" + type(ex).__name__
+            else:
+                outcome = "crash"
+                crash = (type(ex).__name__, str(ex)[:300])
+        full = {k: copyval(v) for k, v in dict.items(st)}
+        return {"outcome": outcome, "events": events, "store": full, "per_stmt": per, "crash": crash,
+                "executed": executed}
+
+
+def program_order(phase):
+    """Builder ids are '<phase>_<n>': program order = numeric order of n."""
+    def key(sid):
+        head, _, tail = sid.rpartition("_")
+        return (int(tail) if tail.isdigit() else 10 ** 9, sid)
+    return sorted((s.id for s in phase.statements), key=key)
+
+# }}}
